@@ -42,14 +42,16 @@ var c15Names = []string{
 	"tags/t", "tags/T", "tags/t_1", "tags/tx1",
 	"txs/" + c15tx1 + "/b", "txs/" + c15tx1 + "/c", "txs/" + c15tx2 + "/b",
 	"refs/x/y",
+	// multi-byte characters: a prefix's length in bytes is not its length in characters
+	"remotes/b\u00fcro/x", "remotes/b\u00fcro/y", "remotes/b\u00fc/x", "heads/\u00e9", "heads/\u00e9a", "tags/\u65e5\u672c",
 }
-var c15Prefixes = []string{"", "heads/", "heads/a", "heads/a_", "heads/a%", "heads/A", "remotes/", "remotes/o/", "remotes/o_/", "remotes/o%/", "remotes/O", "tags/", "tags/t", "tags/t_", "txs/", "txs/" + c15tx1 + "/", "h", "x"}
-var c15Remotes = []string{"o", "o_", "oX", "O", "O_", "o%", "ob", "zz"}
+var c15Prefixes = []string{"", "heads/", "heads/a", "heads/a_", "heads/a%", "heads/A", "remotes/", "remotes/o/", "remotes/o_/", "remotes/o%/", "remotes/O", "tags/", "tags/t", "tags/t_", "txs/", "txs/" + c15tx1 + "/", "h", "x", "remotes/b\u00fcro/", "remotes/b\u00fc", "heads/\u00e9", "tags/\u65e5"}
+var c15Remotes = []string{"o", "o_", "oX", "O", "O_", "o%", "ob", "zz", "b\u00fcro", "b\u00fc"}
 
 func init() {
 	Register(&Profile{
 		ID: "C15", Prop: "C15",
-		Rule: "sequences (<=40 ops) of set / logged set / delete / rename / copy / get / filter / filter-key / log read / list heads,tags,remote refs / delete-all and rename-all remote refs / delete transaction refs / reopen over a hostile name alphabet ('_', '%', case variants, nested, prefixes of one another), on the real SQL store over a real SQLite file, with statement-level SQL failures injected into mutating methods; every return value and a full dump (refs + all logs) compared with a map model after every step; non-trivial = >=8 ops incl. >=1 prefix listing or bulk op and >=1 rename/copy; distinct by plan hash",
+		Rule: "sequences (<=40 ops) of set / logged set / delete / rename / copy / get / filter / filter-key / log read / list heads,tags,remote refs / delete-all and rename-all remote refs / delete transaction refs / reopen over a hostile name alphabet ('_', '%', case variants, nested, prefixes of one another), on the real SQL store over a real SQLite file, multi-byte names, with SQL failures (a statement, or a row step of a scan, which surfaces only in rows.Err()) injected into mutating methods (atomic), reads and listings (an error or the right answer) and bulk operations (completed by running them again); every return value and a full dump (refs + all logs) compared with a map model after every step; non-trivial = >=8 ops incl. >=1 prefix listing or bulk op and >=1 rename/copy; distinct by plan hash",
 		Gen: func(seed uint64, tier string) any {
 			r := NewRand(seed)
 			n := r.Range(3, 40)
@@ -102,6 +104,11 @@ func init() {
 				case "set", "setlog", "del", "rename", "copy":
 					if r.Chance(0.12) {
 						op.FailN = r.Range(1, 5)
+					}
+				case "listheads", "listtags", "listremote", "filter", "filterkey", "get", "logread", "delallremote", "renameallremote", "deltxrefs":
+					// statements and row steps (a scan fails part-way: the error is only in rows.Err())
+					if r.Chance(0.2) {
+						op.FailN = r.Range(1, 9)
 					}
 				}
 				p.Ops = append(p.Ops, op)
@@ -270,6 +277,15 @@ func execC15(t *testing.T, raw json.RawMessage, res *Result) {
 			SQLFault.Arm(op.FailN)
 		}
 		firedBefore := SQLFault.Fired
+		// a read may fail because of the injected fault; what it must not do is answer wrongly without an error
+		readFault := func(err error) bool {
+			if err != nil && SQLFault.Fired > firedBefore {
+				res.probe("read_refused_on_sql_failure", 1)
+				return true
+			}
+			return false
+		}
+		var redo func() error // bulk operations: run again after an injected failure
 		switch op.Op {
 		case "set":
 			mutating = true
@@ -337,6 +353,9 @@ func execC15(t *testing.T, raw json.RawMessage, res *Result) {
 			}
 		case "get":
 			v, err := db.Get(op.A)
+			if readFault(err) {
+				break
+			}
 			w, ok := model.m[op.A]
 			if ok != (err == nil) || (ok && !bytes.Equal(v, w)) {
 				res.Violate("get-wrong", "%s: got %x err=%v, model %x present=%v", when, v, err, w, ok)
@@ -345,6 +364,9 @@ func execC15(t *testing.T, raw json.RawMessage, res *Result) {
 		case "filter":
 			listing++
 			got, err := db.Filter(op.P, op.NP)
+			if readFault(err) {
+				break
+			}
 			if err != nil {
 				res.Violate("store-error", "%s: %v", when, err)
 				return
@@ -356,6 +378,9 @@ func execC15(t *testing.T, raw json.RawMessage, res *Result) {
 		case "filterkey":
 			listing++
 			got, err := db.FilterKey(op.P, op.NP)
+			if readFault(err) {
+				break
+			}
 			if err != nil {
 				res.Violate("store-error", "%s: %v", when, err)
 				return
@@ -368,6 +393,9 @@ func execC15(t *testing.T, raw json.RawMessage, res *Result) {
 		case "logread":
 			// covered by dump; also exercise ErrKeyNotFound path
 			_, err := db.LogReader(op.A)
+			if readFault(err) {
+				break
+			}
 			if (err == nil) != (len(model.logs[op.A]) > 0) {
 				res.Violate("log-differs", "%s: LogReader err=%v, model has %d entries", when, err, len(model.logs[op.A]))
 				return
@@ -388,6 +416,9 @@ func execC15(t *testing.T, raw json.RawMessage, res *Result) {
 				got, err = ref.ListRemoteRefs(db, op.A)
 				pre = "remotes/" + op.A + "/"
 			}
+			if readFault(err) {
+				break
+			}
 			if err != nil {
 				res.Violate("store-error", "%s: %v", when, err)
 				return
@@ -405,7 +436,8 @@ func execC15(t *testing.T, raw json.RawMessage, res *Result) {
 		case "delallremote":
 			bulk++
 			mutating = true
-			opErr = ref.DeleteAllRemoteRefs(db, op.A)
+			redo = func() error { return ref.DeleteAllRemoteRefs(db, op.A) }
+			opErr = redo()
 			for k := range model.m {
 				if strings.HasPrefix(k, "remotes/"+op.A+"/") {
 					delete(model.m, k)
@@ -428,7 +460,8 @@ func execC15(t *testing.T, raw json.RawMessage, res *Result) {
 				mutating = false
 				break
 			}
-			opErr = ref.RenameAllRemoteRefs(db, op.A, op.B)
+			redo = func() error { return ref.RenameAllRemoteRefs(db, op.A, op.B) }
+			opErr = redo()
 			for _, k := range sortedKeys(model.m) {
 				if strings.HasPrefix(k, "remotes/"+op.A+"/") {
 					nk := "remotes/" + op.B + "/" + k[len("remotes/"+op.A+"/"):]
@@ -448,7 +481,8 @@ func execC15(t *testing.T, raw json.RawMessage, res *Result) {
 				res.Invalid("bad uuid")
 				return
 			}
-			opErr = ref.DeleteTransactionRefs(db, id)
+			redo = func() error { return ref.DeleteTransactionRefs(db, id) }
+			opErr = redo()
 			for k := range model.m {
 				if strings.HasPrefix(k, "txs/"+op.A+"/") {
 					delete(model.m, k)
@@ -476,6 +510,18 @@ func execC15(t *testing.T, raw json.RawMessage, res *Result) {
 			if fired {
 				faultsFired++
 				res.fault("sql_statement_failure", 1)
+				if opErr != nil && redo != nil {
+					// a bulk operation stopped part-way: running it again without the fault must finish it
+					if err := redo(); err != nil {
+						res.Violate("bulk-not-completable", "%s failed on an injected SQL failure (%v) and running it again fails: %v", when, opErr, err)
+						return
+					}
+					res.probe("bulk_op_completed_by_rerun", 1)
+					if !dump(when + " run again after an injected SQL failure") {
+						return
+					}
+					continue
+				}
 				if opErr != nil {
 					// atomicity: the store must equal the model before the call
 					model = before
